@@ -24,11 +24,12 @@ type interruption struct {
 	At         float64 // fraction of the hook hits of an uninterrupted run
 	FlushEvery int
 	ExitFlush  bool
-	ChunkDelta int // this run uses chunk size base+delta (the sender's chunk size may change between runs)
+	ChunkDelta int    // this run uses chunk size base+delta (99: another chunk size that keeps some file's chunk count)
+	Site       string // "" = kill at the At-th fraction of all hook hits; else of the hits of this site
 }
 
 type crashCase struct {
-	X     xcase
+	X          xcase
 	Chain      []interruption
 	Delay      int
 	FinalDelta int
@@ -222,8 +223,8 @@ func c04CheckAdvertised(e *crashEnv, before []diskSidecar, res *childResult, tai
 // the C04 and C05 oracles. which selects the property whose failures are reported ("C04" or "C05").
 type historyStats struct {
 	kills, killsAfterMark, killsInFlush, drops, nontrivialKills int
-	setBits, unflushed                                           int
-	sites                                                        map[string]int
+	setBits, unflushed                                          int
+	sites                                                       map[string]int
 }
 
 func runHistory(cc crashCase, which string) (sig, detail string, st historyStats, err error) {
@@ -237,6 +238,11 @@ func runHistory(cc crashCase, which string) (sig, detail string, st historyStats
 	probe := e.spec
 	probe.Out = filepath.Join(e.dir, "probe-out")
 	probe.Kind = "none"
+	for _, in := range cc.Chain {
+		if in.FlushEvery > 0 && (probe.FlushEvery == 0 || in.FlushEvery < probe.FlushEvery) {
+			probe.FlushEvery = in.FlushEvery // flushes add hook hits: measure K under the densest flush policy of the chain
+		}
+	}
 	pc, perr := e.run(probe)
 	if perr != nil {
 		return "", "", st, perr
@@ -249,6 +255,10 @@ func runHistory(cc crashCase, which string) (sig, detail string, st historyStats
 	if K == 0 {
 		return "", "", st, fmt.Errorf("no hook hits")
 	}
+	siteCount := map[string]int{}
+	for _, j := range pc.Journal {
+		siteCount[j.Site]++
+	}
 	for i, in := range cc.Chain {
 		sp := e.spec
 		sp.Kind, sp.FlushEvery, sp.ExitFlush, sp.HashDelay = in.Kind, in.FlushEvery, in.ExitFlush, cc.Delay
@@ -256,7 +266,29 @@ func runHistory(cc crashCase, which string) (sig, detail string, st historyStats
 		if sp.KillAt > K {
 			sp.KillAt = K
 		}
-		if sp.Chunk+in.ChunkDelta >= 1 {
+		if in.Site != "" && siteCount[in.Site] > 0 {
+			sp.KillSite = in.Site
+			sp.KillAt = 1 + int(in.At*float64(siteCount[in.Site]))
+		}
+		if in.ChunkDelta == 99 {
+			// another chunk size under which some multi-chunk file keeps its chunk count
+			base := e.spec.Chunk
+		search:
+			for d := 80; d >= 1; d-- { // the largest change that keeps a chunk count: geometries differ most
+				for _, c2 := range []int{base + d, base - d} {
+					if c2 < 1 {
+						continue
+					}
+					for _, f := range cc.X.Tree.Files() {
+						n1, n2 := (f.Size+base-1)/base, (f.Size+c2-1)/c2
+						if n1 >= 2 && n1 == n2 {
+							sp.Chunk = c2
+							break search
+						}
+					}
+				}
+			}
+		} else if sp.Chunk+in.ChunkDelta >= 1 {
 			sp.Chunk += in.ChunkDelta
 		}
 		if in.Kind == "wfail" {
@@ -383,7 +415,8 @@ func genCrashCase(t *rapid.T) crashCase {
 			At:         frac(t, fmt.Sprintf("iat%d", i)),
 			FlushEvery: rapid.SampledFrom([]int{0, 1, 1, 2, 3}).Draw(t, fmt.Sprintf("iflush%d", i)),
 			ExitFlush:  rapid.Bool().Draw(t, fmt.Sprintf("iexitflush%d", i)),
-			ChunkDelta: rapid.SampledFrom([]int{0, 0, 0, 0, 1, -1, 2, 5, -3}).Draw(t, fmt.Sprintf("ichunk%d", i)),
+			ChunkDelta: rapid.SampledFrom([]int{0, 0, 0, 0, 1, -1, 2, 5, -3, 99, 99}).Draw(t, fmt.Sprintf("ichunk%d", i)),
+			Site:       rapid.SampledFrom([]string{"", "", "", "recv.chunk.marked", "recv.chunk.written", "sidecar.flush.begin", "sidecar.flush.tmpwritten", "sidecar.flush.renamed"}).Draw(t, fmt.Sprintf("isite%d", i)),
 		})
 	}
 	cc.Chain[0].ChunkDelta = 0
@@ -528,6 +561,31 @@ func TestVerifC0405Enumerate(t *testing.T) {
 			}
 		}
 		rec.Extra(fmt.Sprintf("crash_points_workload_%d_%d_%d", w.files, w.chunks, w.streams), K)
+		// second block: the first run is killed half way, the second run uses another chunk size that
+		// keeps the chunk count (what a changed sender heuristic can produce) and is killed at every k
+		x2 := x
+		x2.Tree = verifnet.Tree{Base: "grid", Nodes: []verifnet.Node{{Rel: "f00.bin", Size: 250*w.chunks - 40, Seed: 77}}}
+		x2.Chunk = 250
+		for at := 1; at <= K; at++ {
+			k++
+			if k%nsh != sh {
+				continue
+			}
+			cc := crashCase{X: x2, Chain: []interruption{{Kind: "kill", Site: "sidecar.flush.renamed", At: 0.6, FlushEvery: 1}, {Kind: "kill", At: (float64(at) - 0.5) / float64(K), FlushEvery: 1, ChunkDelta: 99}}}
+			sig, detail, st, err := runHistory(cc, which)
+			if err != nil {
+				rec.Class("not-run")
+				continue
+			}
+			rec.Eval()
+			recordHistory(rec, st)
+			rec.Class("chunk-size-changed-between-runs")
+			if sig != "" {
+				rec.Fail(t, sig, fmt.Sprintf("file of %d bytes, chunk 250 then another chunk size with the same chunk count; first run killed half way, second run killed at hook hit %d of %d: %s", 250*w.chunks-40, at, K, detail))
+				continue
+			}
+			rec.NonTrivial(fmt.Sprintf("resize/%v/%d", w, at))
+		}
 	}
 	rec.SetExhaustive(true)
 }
